@@ -559,6 +559,13 @@ fn c13_check(names: &[&str], default: &str) -> (u64, Vec<String>) {
         if scoped.as_str() != name || scoped.to_string() != name || scoped.as_icu_locale() != l.as_icu_locale() || scoped.direction().as_str() != l.direction().as_str() || scoped.to_base_locale() != *l {
             problems.push(format!("ScopedLocale of {name} does not forward its identity"));
         }
+        // ... and compares / hashes like the locale it wraps (reactive memos rely on `==`)
+        for other in all {
+            let so = leptos_i18n::__private::scope_locale_util(*other, |k: <Locale as leptos_i18n::Locale>::Keys| k);
+            if (scoped == so) != (l == other) {
+                problems.push(format!("ScopedLocale({name}) == ScopedLocale({}) is {}", other.as_str(), scoped == so));
+            }
+        }
     }
     // parsing: a string maps to a locale only if it is that locale's name
     for s in c13_strings(names) {
@@ -1176,11 +1183,23 @@ fn c18(tier: Tier) -> i32 {
     let mut built = vec![];
     let num_values: Vec<f64> = vec![0.0, 1234567.891, -42.0];
     let lists: Vec<&str> = vec!["[\"A\", \"B\", \"C\"]", "[\"A\"]", "[\"A\", \"B\"]", "[\"\"; 0]"];
+    // position of each declaration inside its family: the quick tier runs the view / format-macro flavours on the
+    // first two declarations of every family and on every third of the rest
+    let mut fam_seen: BTreeMap<&str, usize> = BTreeMap::new();
+    let fam_idx: Vec<usize> = cases
+        .iter()
+        .map(|c| {
+            let e = fam_seen.entry(c.family).or_insert(0);
+            *e += 1;
+            *e - 1
+        })
+        .collect();
     for (ci, chunk) in cases.chunks(per).enumerate() {
         let mut c = Case::new(&format!("c18_{}_{ci}", tier.name()), p.clone());
         c.probe.items.push_str(C18_ITEMS);
         for (j, fc) in chunk.iter().enumerate() {
             let i = ci * per + j;
+            let early = fam_idx[i] < 2;
             for l in locales {
                 let lv = locale_variant(l);
                 let src = if l == "fr-CA" { "fr" } else { l };
@@ -1202,18 +1221,27 @@ fn c18(tier: Tier) -> i32 {
                     c.next_id += 1;
                     c.probe.stmts.push(format!("cmp({id}, || td_string!({lv}, f{i}, v = {sv}).to_string(), {prefix}, {direct});"));
                     c.expected.insert(id, Expect { probe: c.probe.name.clone(), what: format!("td_string {} @{l} value {dv}", fc.text), text: "^OK|^SKIP-ICU".into(), suffix: false });
-                    if vi == 0 && (tier == Tier::Thorough || i % 3 == 0) {
+                    if vi == 0 && (tier == Tier::Thorough || i % 3 == 0 || early) {
                         let id = c.next_id;
                         c.next_id += 1;
                         c.probe.stmts.push(format!("cmp({id}, || html(td!({lv}, f{i}, v = {vv})), {prefix}, {direct});"));
                         c.expected.insert(id, Expect { probe: c.probe.name.clone(), what: format!("td {} @{l}", fc.text), text: "^OK|^SKIP-ICU".into(), suffix: false });
                     }
-                    if vi == 0 && fc.macro_ok && (tier == Tier::Thorough || i % 2 == 0) && !fc.text.contains("nonsense") {
+                    if vi == 0 && fc.macro_ok && (tier == Tier::Thorough || i % 2 == 0 || early) && !fc.text.contains("nonsense") {
                         let id = c.next_id;
                         c.next_id += 1;
                         let fsv = if matches!(fc.family, "date" | "time" | "datetime") { format!("&{sv}") } else { sv.clone() };
                         c.probe.stmts.push(format!("cmp({id}, || td_format_string!({lv}, {fsv}, formatter: {}).to_string(), \"\", {direct});", fc.text));
                         c.expected.insert(id, Expect { probe: c.probe.name.clone(), what: format!("td_format_string {} @{l}", fc.text), text: "^OK|^SKIP-ICU".into(), suffix: false });
+                        // the two other back-ends of the format macros
+                        let id = c.next_id;
+                        c.next_id += 1;
+                        c.probe.stmts.push(format!("cmp({id}, || td_format_display!({lv}, {fsv}, formatter: {}).to_string(), \"\", {direct});", fc.text));
+                        c.expected.insert(id, Expect { probe: c.probe.name.clone(), what: format!("td_format_display {} @{l}", fc.text), text: "^OK|^SKIP-ICU".into(), suffix: false });
+                        let id = c.next_id;
+                        c.next_id += 1;
+                        c.probe.stmts.push(format!("cmp({id}, || html(td_format!({lv}, {vv}, formatter: {})), \"\", {direct});", fc.text));
+                        c.expected.insert(id, Expect { probe: c.probe.name.clone(), what: format!("td_format (view) {} @{l}", fc.text), text: "^OK|^SKIP-ICU".into(), suffix: false });
                     }
                 }
             }
@@ -1315,7 +1343,7 @@ fn c18(tier: Tier) -> i32 {
     rep.nontriv(n_cases as u64 * locales.len() as u64);
     rep.sample(json!({"key": "[fr]{{ v, currency(width: narrow; currency_code: EUR) }}", "probe": "cmp(id, td_string!(Locale::fr_CA, f27, v = 1234567.891f64).to_string(), format!(\"[fr]{}\", d_cur(\"fr-CA\", CurrencyWidth::Narrow, \"EUR\", 1234567.891)))"}));
     let mut cov = serde_json::Map::new();
-    cov.insert("rule".into(), json!(format!("{n_cases} formatter declarations (every name x every documented argument value + omitted + invalid, unknown argument, swapped order) as keys of a project with locales en, fr, de, ja, ar and fr-CA (all keys null, inherits fr: fr's declaration rendered for fr-CA); for each key x locale x values (numbers 0, 1234567.891, -42; a fixed date, time, datetime; lists of 3, 1, 2, 0 items) td_string! (all), td! -> html and td_format_string! (subsets in the quick tier) are compared inside the probe with a direct ICU4X call for the locale being rendered; cache histories: every sequence of length <= {} over 6 number-formatter lookups that collide pairwise on locale or on options, each element compared with its direct-ICU value whatever ran before; the number / currency / list declarations again in a probe built WITHOUT icu_compiled_data whose formatters come from a derived IcuDataProvider (set_icu_data_provider)", tier.pick(4, 5))));
+    cov.insert("rule".into(), json!(format!("{n_cases} formatter declarations (every name x every documented argument value + omitted + invalid, unknown argument, swapped order) as keys of a project with locales en, fr, de, ja, ar and fr-CA (all keys null, inherits fr: fr's declaration rendered for fr-CA); for each key x locale x values (numbers 0, 1234567.891, -42; a fixed date, time, datetime; lists of 3, 1, 2, 0 items) td_string! (all), td! -> html and td_format_string! / td_format_display! / td_format! -> html (quick: the first two declarations of every family and every second or third of the rest) are compared inside the probe with a direct ICU4X call for the locale being rendered; cache histories: every sequence of length <= {} over 6 number-formatter lookups that collide pairwise on locale or on options, each element compared with its direct-ICU value whatever ran before; the number / currency / list declarations again in a probe built WITHOUT icu_compiled_data whose formatters come from a derived IcuDataProvider (set_icu_data_provider)", tier.pick(4, 5))));
     cov.insert("exhaustive".into(), json!(tier == Tier::Thorough));
     rep.finish(cov, &["ICU4X formatting with compiled data is the reference (trusted base)", "thread interleavings of the cache are the loom engine's part of this check"])
 }
